@@ -20,6 +20,12 @@ CHECKS = {
  "C09": dict(level="exploration", technique="property-based testing (Hypothesis): prefix/metamorphic relation on truncations, constructive framing faults, multi-file histories",
    text="Every proper prefix of small generated programs (sampled cut points for larger ones) must be rejected with a diagnostic and print only a prefix of the intact listing; each listed kind of framing/token fault is built constructively and must be rejected without inventing text; multi-file command lines must equal the concatenation of single-file runs.",
    note="Trusted: the C03 generator for well-formed programs; the tool's own intact listing is the reference for the prefix relation.", ref="4 C09"),
+ "C04": dict(level="exploration", technique="property-based testing (Hypothesis): self-describing marker discs, differential against the documented offset formula",
+   text="Marker discs in ssd/sdd/dsd/ddd/mmb containers (optionally truncated); dump-sector over first/second/middle/last track x all sectors of every attached drive, out-of-range addresses, reads past a truncation point, file reads, unformatted MMB slots; expected bytes come from the documented offset formula evaluated on the generated file.",
+   note="Trusted: container writers written from dfs.1/mmb.5. Two-sided non-interleaved images are a recorded known finding and excluded from generation.", ref="4 C04"),
+ "C14": dict(level="exploration", technique="property-based testing (Hypothesis): layout-first disc generation vs extent-arithmetic reference model and cross-command invariants",
+   text="free, space, sector-map and extract-unused are compared with extent arithmetic computed from the generated layout, for zero-length files, gaps of every size, empty Watford halves and all Opus volumes.",
+   note="Trusted: reference extent arithmetic; two points on which the statement is silent accept both answers (counted as ambiguous in evidence).", ref="4 C14"),
 }
 
 def main():
